@@ -39,6 +39,16 @@ def rootStructText : String := "      block \"IF_DATA\" struct {\n        uint;\
 
 theorem renderSpec_roundtrip_rootStruct : renderRoundTrip rootStructText = true := by decide +kernel
 
+/-- `SAMENAME_TEXT`: one identifier for a struct, a tagged struct and an enum (A2ML keeps one name space per kind of type;
+    seeded change C19-8 merged them) -/
+def sameNameText : String := "      struct Timing {\n        uint;\n        uchar;\n      };\n\n      taggedstruct Timing {\n        \"T\" uint;\n        (\"R\" int)*;\n      };\n\n      enum Timing {\n        \"FAST\" = 1,\n        \"SLOW\" = 2\n      };\n\n      block \"IF_DATA\" taggedunion {\n        \"S\" struct Timing;\n        \"TS\" taggedstruct Timing;\n        \"E\" enum Timing;\n      };"
+
+/-- the model's parser accepts it and resolves each reference in the name space of its own kind (the same dump as the
+    library prints for the constant: `aml` tie) -/
+theorem sameName_constant_accepted : dumpOf (parseA2ml sameNameText.toList) =
+    some "tu{(\"E\" 0 0 enum{\"FAST\"=Some(1) \"SLOW\"=Some(2) })(\"S\" 0 0 struct{uint uchar })(\"TS\" 0 0 ts{(\"R\" 0 1 int)(\"T\" 0 0 uint)})}".toList := by
+  decide +kernel
+
 /-- the depth of what `parse_a2ml` returns for a text (`none` if it is rejected) -/
 def depthOf (text : String) : Option Nat :=
   match parseA2ml text.toList with
